@@ -64,6 +64,7 @@ SPECS = {
     "spiftool_safe_strncat": {"dest": ("buf", "size"), "src": ("cstr",)},      # dest is a buffer of `size` bytes
     "spiftool_safe_str": {"str": ("buf", "len")},                              # str holds `len` bytes
     "spiftool_hex_dump": {"buff": ("buf", "count")},
+    "spiftool_temp_file": {"ftemplate": ("buf", "len")},                       # ftemplate holds `len` bytes
     "memrec_add_var": {"filename": ("cstr",)},
 }
 
